@@ -615,7 +615,7 @@ theorem append_rel (im other : Img) (hcs : other.cs = im.cs) (hsc : other.scalar
     (hd : anyNone im.date = true) (ht : anyNone im.time = false) (ht' : anyNone other.time = false) :
     im.append other none = .ok { im with series := true, slabs := im.slabs ++ other.slabs,
                                           time := im.time ++ other.time, date := im.date ++ other.date } := by
-  unfold Img.append
+  unfold Img.append appendChecks appendTimes
   simp [hcs, hsc, hd, ht, ht', bind, Except.bind, pure, Except.pure, map_add_zero]
 
 /-- `stack` of images carrying relative times only: slabs, times and dates are concatenated -/
@@ -660,7 +660,7 @@ theorem append_dates (im other : Img) (hcs : other.cs = im.cs) (hsc : other.scal
     (hord : ∀ a b, im.date.getLast? = some (some a) → other.date.head? = some (some b) → a < b) :
     im.append other none = .ok (appended im other (relDates (im.date ++ other.date) r)) := by
   have hdd : anyNone (im.date ++ other.date) = false := by rw [anyNone_append, hd, hd']; rfl
-  unfold Img.append appended relDates
+  unfold Img.append appendChecks appendTimes appended relDates
   cases h1 : im.date.getLast? with
   | none => simp [hcs, hsc, hd, hd', ht, ht', bind, Except.bind, pure, Except.pure, timesFromDates, hdd, href]
   | some x =>
@@ -796,7 +796,7 @@ theorem append_offset_fields (im other s : Img) (off : Rat) (h : im.append other
     (ht : anyNone im.time = false) (ht' : anyNone other.time = false) :
     s.time = im.time ++ other.time.map (fun t => t.map (· + off)) ∧ s.date = im.date ++ other.date ∧
       s.slabs = im.slabs ++ other.slabs ∧ s.cs = im.cs ∧ s.scalar = im.scalar ∧ s.ref = im.ref ∧ s.series = true := by
-  unfold Img.append at h
+  unfold Img.append appendChecks appendTimes at h
   simp only [bind, Except.bind, pure, Except.pure, ht, ht', Bool.or_self, Bool.false_eq_true, if_false,
     Option.isNone_some, Bool.false_and, Option.getD_some, throw, throwThe, MonadExceptOf.throw] at h
   repeat' (split at h)
@@ -811,5 +811,148 @@ theorem timeInterval_fields (im im' : Img) (sl : PySlice) (h : im.timeInterval s
   split at h
   · simp [throw, throwThe, MonadExceptOf.throw] at h
   · injection h with h; subst h; exact ⟨rfl, rfl, rfl, rfl, rfl⟩
+
+/-! ### point ROIs: physical box = voxel box, clipping -/
+theorem coordinateB_ok (cs : CS) (am : AxisMap) (ham : axisMap cs.dim = .ok am) (ws : List (List Rat)) :
+    cs.coordinateB ws = .ok (ws.map (coordWith am cs)) := by
+  induction ws with
+  | nil => rfl
+  | cons w ws ih =>
+    simp only [CS.coordinateB] at ih ⊢
+    rw [List.mapM_cons, ih]
+    simp only [CS.coordinate, ham, Except.map]; rfl
+
+theorem voxelB_ok (cs : CS) (am : AxisMap) (ham : axisMap cs.dim = .ok am) (xs : List (List Rat)) :
+    cs.voxelB xs = .ok (xs.map (voxelWith am cs)) := by
+  induction xs with
+  | nil => rfl
+  | cons x xs ih =>
+    simp only [CS.voxelB] at ih ⊢
+    rw [List.mapM_cons, ih]
+    simp only [CS.voxel, ham, Except.map]; rfl
+
+theorem axisMap_exists (d : Dim) : ∃ am, axisMap d = .ok am ∧ am.wf d = true := by
+  cases d
+  · exact ⟨[(0, false)], by decide, by decide⟩
+  · exact ⟨[(1, false), (0, true)], by decide, by decide⟩
+  · exact ⟨[(1, false), (2, true), (0, true)], by decide, by decide⟩
+
+/-- a physical box whose corner points are the coordinates of the (fractional) voxel positions `ws`
+selects exactly what the VoxelArray of the floored positions selects -/
+theorem physical_box_floor (im : Img) (hcs : im.cs.ok) (ws : List (List Rat))
+    (hw : ∀ w ∈ ws, w.length = im.cs.dim.toNat) :
+    ∃ pts, im.cs.coordinateB ws = .ok pts ∧ im.subCoords pts = im.subVoxels (ws.map (·.map Rat.floor)) := by
+  obtain ⟨am, hd, hwf⟩ := axisMap_exists im.cs.dim
+  refine ⟨_, coordinateB_ok im.cs am hd ws, ?_⟩
+  unfold Img.subCoords Img.subVoxels
+  rw [voxelB_ok im.cs am hd]
+  simp only [bind, Except.bind]
+  have : (ws.map (coordWith am im.cs)).map (voxelWith am im.cs) = ws.map (·.map Rat.floor) := by
+    rw [List.map_map]
+    apply List.map_congr_left
+    intro w hwm
+    exact voxel_coord_floor_with im.cs hcs am hwf w (hw w hwm)
+  rw [this]
+
+/-- the normalised voxel range a point ROI selects on an axis of `N` voxels when the points' indices span `[lo, hi]` -/
+def boxRange (N : Nat) (lo hi : Int) : Nat × Nat := (min (max 0 lo).toNat N, (max 0 (min hi (N : Int))).toNat)
+
+theorem sliceIdx_box (N : Nat) (lo hi : Int) :
+    sliceIdx N (some (max 0 lo), some (max 0 (min hi (N : Int)))) = boxRange N lo hi := by
+  unfold sliceIdx boxRange
+  simp only [Option.map_some, Option.getD_some]
+  have h1 : ¬ (max 0 lo < 0) := by omega
+  have h2 : ¬ (max 0 (min hi (N : Int)) < 0) := by omega
+  simp only [h1, h2, if_false]
+  congr 1
+  omega
+
+/-- CLIPPING: voxel index `j` is selected iff it is a voxel of the image and lies in `[lo, hi)` -/
+theorem clip_selects (N : Nat) (lo hi : Int) (j : Nat) :
+    ((boxRange N lo hi).1 ≤ j ∧ j < (boxRange N lo hi).2) ↔ (lo ≤ (j : Int) ∧ (j : Int) < hi ∧ j < N) := by
+  unfold boxRange; simp only; omega
+
+/-- a ROI entirely outside the image on an axis (all indices ≤ 0 from below, or ≥ N) selects nothing there -/
+theorem roi_outside_selects_nothing (N : Nat) (lo hi : Int) (h : hi ≤ 0 ∨ (N : Int) ≤ lo) :
+    (boxRange N lo hi).2 ≤ (boxRange N lo hi).1 ∨ (boxRange N lo hi).2 = 0 := by
+  unfold boxRange; simp only; omega
+theorem mapM_ok_get {α β} (f : α → Except Err β) (l : List α) : ∀ (r : List β), l.mapM f = .ok r →
+    r.length = l.length ∧ ∀ (i : Nat) (a : α), l[i]? = some a → ∃ b, f a = .ok b ∧ r[i]? = some b := by
+  induction l with
+  | nil =>
+    intro r h
+    simp only [List.mapM_nil, pure, Except.pure] at h
+    injection h with h; subst h; simp
+  | cons x l ih =>
+    intro r h
+    rw [List.mapM_cons] at h
+    simp only [bind, Except.bind, pure, Except.pure] at h
+    split at h
+    · exact absurd h (by simp)
+    · next b hb =>
+      split at h
+      · exact absurd h (by simp)
+      · next bs hbs =>
+        injection h with h; subst h
+        obtain ⟨hl, hg⟩ := ih bs hbs
+        refine ⟨by simp [hl], ?_⟩
+        intro i a hi
+        cases i with
+        | zero => simp at hi; subst hi; exact ⟨b, hb, by simp⟩
+        | succ n => simp at hi ⊢; exact hg n a hi
+
+theorem boxSlices_ranges (shape : List Nat) (pts : List (List Int)) (sls : List PySlice)
+    (h : boxSlices shape pts = .ok sls) :
+    sls.length = shape.length ∧ ∀ (d N : Nat), shape[d]? = some N → ∃ lo hi, colMin pts d = some lo ∧ colMax pts d = some hi ∧
+      (List.zipWith sliceIdx shape sls)[d]? = some (boxRange N lo hi) := by
+  unfold boxSlices at h
+  obtain ⟨hl, hg⟩ := mapM_ok_get _ _ _ h
+  refine ⟨by simpa using hl, ?_⟩
+  intro d N hd
+  have hz : shape.zipIdx[d]? = some (N, d) := by
+    rw [List.getElem?_zipIdx, hd]; simp
+  obtain ⟨b, hb, hr⟩ := hg d (N, d) hz
+  simp only at hb
+  split at hb
+  · next lo hi hlo hhi =>
+    injection hb with hb; subst hb
+    refine ⟨lo, hi, hlo, hhi, ?_⟩
+    rw [List.getElem?_zipWith, hd, hr]
+    simp only [Option.map_some, Option.bind_some, Option.some.injEq] 
+    exact sliceIdx_box N lo hi
+  · exact absurd hb (by simp)
+
+/-- one subregion by arbitrary slices: everything about the result (used by C02 and C19) -/
+theorem subSlices_placed (im sub : Img) (hcs : im.cs.ok) (sls : List PySlice)
+    (h : im.subSlices sls = .ok sub) (hne : sub.nonempty = true) :
+    let ns := List.zipWith sliceIdx im.cs.shape sls
+    ∃ am, axisMap im.cs.dim = .ok am ∧
+      sub.cs.shape = ns.map (fun s => s.2 - s.1) ∧
+      sub.slabs = im.slabs.map (fun sl => { sl with idx := List.zipWith Patch.sliceL sl.idx ns }) ∧
+      (∀ v : List Rat, v.length = im.cs.dim.toNat →
+        coordWith am sub.cs v = coordWith am im.cs (List.zipWith (· + ·) v (ns.map fun s => ((s.1 : Nat) : Rat)))) ∧
+      (∀ p, p < im.cs.dim.toNat → sub.cs.h p = im.cs.h p) ∧
+      sub.time = im.time ∧ sub.date = im.date ∧ sub.ref = im.ref ∧ sub.series = im.series ∧ sub.scalar = im.scalar := by
+  intro ns
+  obtain ⟨hl, hshape⟩ := subSlices_shape im sub sls h
+  have hnsLen : ns.length = im.cs.dim.toNat := by
+    show (List.zipWith sliceIdx im.cs.shape sls).length = _
+    rw [List.length_zipWith, hcs.shapeLen, hl]; simp
+  have hlt : ∀ s ∈ ns, s.1 < s.2 := by
+    intro s hs
+    unfold Img.nonempty at hne
+    rw [hshape, List.all_eq_true] at hne
+    have := hne (s.2 - s.1) (List.mem_map.mpr ⟨s, hs, rfl⟩)
+    simp at this; omega
+  obtain ⟨am, ham, hwf, hspec⟩ := subSlices_spec im hcs sls hl (fun s hs => le_of_lt (hlt s hs))
+  rw [hspec] at h; injection h with h; subst h
+  obtain ⟨_, hamB⟩ := wf_bound hwf
+  refine ⟨am, ham, rfl, rfl, ?_, ?_, rfl, rfl, rfl, rfl, rfl⟩
+  · intro v hv
+    exact subSpec_coord im ns am v (fun pr hpr => by rw [hnsLen]; exact hamB pr hpr) (by rw [hv, hnsLen]) hlt
+  · intro p hp
+    have hp' : p < ns.length := by rw [hnsLen]; exact hp
+    exact subSpec_h im ns am p hp' (by
+      apply hlt; unfold listGetD; rw [List.getElem?_eq_getElem hp']; exact List.getElem_mem hp')
 
 end Darsia.Im
